@@ -101,7 +101,9 @@ def run(ctx):
                             eq_edges.add((t.id, lab))
             from sa.guards import unprotected_path
             w = unprotected_path(sg, n.id, [], reset_edges | eq_edges, exc=False)
-            ctx.instance(R2, "set_next_num_in[advance only at the expected number]", w is None and bool(eq_edges),
+            # a write only reachable through the SequenceReset branch needs no equality test of its own
+            needs_eq = unprotected_path(sg, n.id, [], reset_edges, exc=False) is not None
+            ctx.instance(R2, "set_next_num_in[advance only at the expected number]", w is None and (bool(eq_edges) or not needs_eq),
                          "FIXSession.set_next_num_in advances the counter for a non-SequenceReset message without its `<number> == next_num_in` test: a number above "
                          "the expected one would move the counter past the gap", loc(n.ast), sg.describe(w or [])[-6:])
     # who writes next_num_in at all
